@@ -134,6 +134,16 @@ CHECKS += [
          technique="symbolic execution of operator-arithmetic matrices/simplify on polynomial terms vs an independent matrix-arithmetic oracle; z3 QF_NRA"),
 ]
 
+CHECKS += [
+    dict(property_id="C08", category="proof", engine=E1,
+         text="For every ordered pair of 36 (thorough 50) operator kinds (Paulis, rotations, controlled gates, SWAP family, Ising gates, MultiRZ, "
+              "MultiControlledX, ctrl(...) wrappers, Permute, Pauli products and weighted Pauli sums) and every overlap pattern of their wires on "
+              "<= 4 wires, the real qp.is_commuting is asked for its verdict; whenever it says True, A.B == B.A on the joint wires is proved by z3 "
+              "for ALL parameter values and Pauli-sum coefficients. For Pauli-word operators a False verdict is checked as well (exactness).",
+         note=PROOF_NOTE + " The verdict is read at generic concrete parameters. Outside: documented unsupported operators, value-dependent verdicts of two non-simplified Rot/U2/U3/CRot, completeness for non-Pauli operators.",
+         technique="symbolic execution of operator matrices on polynomial terms; z3 QF_NRA commutator identity proofs for every pair reported commuting"),
+]
+
 _NOT_BUILT = "claimed in DESIGN.md §4 but its solver-based check is not built yet in this tree"
 NOT_APPLICABLE_REASONS = {
     "C04": "equality/hash: Python hash() of concrete payloads and tolerance-based allclose relations; no exact relation a solver can decide",
